@@ -103,7 +103,7 @@ class Worker:
 def run_cases(module: str, cases: list[dict], *, workers: int, case_timeout: float,
               quiescence_after: float | None = None, env_extra: dict | None = None,
               startup_timeout: float = 180.0, progress: bool = True,
-              rss_limit: int | None = None) -> list[dict]:
+              rss_limit: int | None = None, max_hangs: int = 8) -> list[dict]:
     """Run every case in some worker; returns one result record per case (same order).
 
     Result record: {"case": case, "res": {...}} | {"case": case, "error": str, "sedpack_frame": bool}
@@ -120,6 +120,8 @@ def run_cases(module: str, cases: list[dict], *, workers: int, case_timeout: flo
     lock = threading.Lock()
     t0 = time.monotonic()
 
+    hung = [0]
+
     def loop(idx: int) -> None:
         worker = Worker(module, idx, logdir, env_extra)
         try:
@@ -128,7 +130,16 @@ def run_cases(module: str, cases: list[dict], *, workers: int, case_timeout: flo
                     i, case = todo.get_nowait()
                 except queue.Empty:
                     return
+                if hung[0] >= max_hangs:
+                    # enough witnesses: do not spend a watchdog period on every remaining case
+                    with lock:
+                        results[i] = {"case": case, "skipped": True}
+                        done_count[0] += 1
+                    continue
                 record = run_one(worker, case)
+                if record.get("timeout"):
+                    with lock:
+                        hung[0] += 1
                 record["case"] = case
                 with lock:
                     results[i] = record
